@@ -13,6 +13,8 @@ package webrtc
 //
 // Workload: seeded histories in two modes.
 //   pair: two pion PeerConnections, 2..5 rounds with a random offerer per round, random local operations in between;
+//   (pair: with p=0.3 the offer reaches the answerer in max-bundle browser form: bundled sections after the first are
+//         port 0 + a=bundle-only, still listed in the group; gen: the same class for any section kind, p=0.35)
 //   gen : a foreign (generator) offer with dense / sparse / non-numeric / mixed mids is applied and answered, then
 //         local transceivers / tracks / data channels are added and CreateOffer is called; optionally the offer is
 //         answered by a mirrored foreign answer and a second round of additions + CreateOffer follows.
@@ -45,10 +47,11 @@ type c06Hist struct {
 	cfg  string
 	mode string
 
-	remoteTexts     []string // remote descriptions applied from the generator (for the replay file)
-	remoteNonDense  bool     // some applied remote description had mids other than "0".."n-1"
-	remoteDropped   bool     // some applied foreign offer had a section pion may not mirror in its answer (unknown kind / no direction)
-	addAfterRemote  bool     // a local addition happened on a peer that had already applied a remote offer
+	remoteTexts     []string          // remote descriptions applied from the generator (for the replay file)
+	remoteNonDense  bool              // some applied remote description had mids other than "0".."n-1"
+	remoteDropped   bool              // some applied foreign offer had a section pion may not mirror in its answer (unknown kind / no direction)
+	addAfterRemote  bool              // a local addition happened on a peer that had already applied a remote offer
+	bundleOnly      map[string]string // mid -> kind of the port-0 sections LISTED IN BUNDLE of the remote offer being answered
 	maxSections     int
 	descsChecked    int
 	violationsFound int
@@ -225,6 +228,18 @@ func (h *c06Hist) check(who, typ, text string) { //nolint:gocognit,cyclop
 		h.violation(sig, fmt.Sprintf("mid %q is shared by sections %v (%s): %s", mid, idxs, strings.Join(kinds, ","), sum), who, typ, text)
 	}
 
+	if typ == "answer" && len(h.bundleOnly) > 0 {
+		for mid, kind := range h.bundleOnly {
+			if idxs := byMid[mid]; len(idxs) == 1 {
+				if d.Media[idxs[0]].Rejected() {
+					h.run.Count("offered_bundle_only_answered_rejected:"+kind, 1)
+				} else {
+					h.run.Count("offered_bundle_only_answered_accepted:"+kind, 1)
+				}
+			}
+		}
+	}
+
 	// --- BUNDLE
 	nGroups := 0
 	for _, g := range d.AttrAll("group") {
@@ -270,6 +285,21 @@ func (h *c06Hist) check(who, typ, text string) { //nolint:gocognit,cyclop
 					}
 					if !acc[g] && sig != "bundle:mid-listed-twice" {
 						sig = "bundle:lists-non-accepted-mid"
+					}
+				}
+				if sig == "bundle:lists-non-accepted-mid" && typ == "answer" {
+					// name the cause: the listed mid belongs to a section of THIS answer that is rejected (port 0) although the
+					// offer had it as a zero-port section listed in the group (bundle-only), i.e. the answer copied the port
+					// but kept the group membership
+					var kinds []string
+					for g := range seen {
+						if k, ok := h.bundleOnly[g]; ok && !acc[g] && len(byMid[g]) == 1 && d.Media[byMid[g][0]].Rejected() {
+							kinds = append(kinds, k)
+						}
+					}
+					if len(kinds) > 0 {
+						sort.Strings(kinds)
+						sig = "bundle:lists-rejected-mid-of-offered-bundle-only-section:" + kinds[0]
 					}
 				}
 				if sig == "bundle:not-the-accepted-mids" && !has {
@@ -460,7 +490,22 @@ func (h *c06Hist) exchange(off, ans *c06Peer) bool {
 	if !h.gather(off) {
 		return false
 	}
-	if err = ans.pc.SetRemoteDescription(*off.pc.LocalDescription()); err != nil {
+	remote := *off.pc.LocalDescription()
+	h.bundleOnly = nil
+	if h.r.Chance(0.3) {
+		// the offer as a max-bundle browser would send it: bundled sections after the tagged one are bundle-only
+		if text, bo := c06MakeBundleOnly(h.r, remote.SDP); len(bo) > 0 {
+			remote.SDP = text
+			h.bundleOnly = bo
+			h.remoteTexts = append(h.remoteTexts, text)
+			h.logf("offer rewritten in transit: bundle-only sections %v", c06SortedKV(bo))
+			h.run.Count("pair_offers_with_bundle_only_sections", 1)
+			for _, k := range bo {
+				h.run.Count("bundle_only_sections_offered:"+k, 1)
+			}
+		}
+	}
+	if err = ans.pc.SetRemoteDescription(remote); err != nil {
 		h.apiErr("SetRemoteDescription(offer)", err)
 
 		return false
@@ -492,6 +537,75 @@ func (h *c06Hist) exchange(off, ans *c06Peer) bool {
 	h.run.Count("pair_rounds_completed", 1)
 
 	return true
+}
+
+func c06SortedKV(m map[string]string) []string {
+	out := make([]string, 0, len(m))
+	for k, v := range m {
+		out = append(out, k+"="+v)
+	}
+	sort.Strings(out)
+
+	return out
+}
+
+// c06MakeBundleOnly rewrites an offer text so that a random non-empty subset of the sections listed in a=group:BUNDLE,
+// except the first listed one (the offerer-tagged section keeps its port, RFC 8843), is offered as bundle-only:
+// port 0 + a=bundle-only, mid still listed in the group. Returns mid -> kind of the rewritten sections.
+func c06MakeBundleOnly(r *kit.Rand, text string) (string, map[string]string) {
+	session, sections := rigSplitSections(text)
+	inGroup := map[string]bool{}
+	for _, ln := range session {
+		if strings.HasPrefix(ln, "a=group:BUNDLE") {
+			for _, m := range strings.Fields(ln)[1:] {
+				inGroup[m] = true
+			}
+		}
+	}
+	var cand []int
+	tagged := false
+	for i, sec := range sections {
+		f := strings.Fields(sec[0])
+		if len(f) < 2 || f[1] == "0" {
+			continue
+		}
+		mid := ""
+		for _, ln := range sec {
+			if strings.HasPrefix(ln, "a=mid:") {
+				mid = strings.TrimPrefix(ln, "a=mid:")
+			}
+		}
+		if !inGroup[mid] {
+			continue
+		}
+		if !tagged {
+			tagged = true
+
+			continue
+		}
+		cand = append(cand, i)
+	}
+	if len(cand) == 0 {
+		return text, nil
+	}
+	must := cand[r.Intn(len(cand))]
+	out := map[string]string{}
+	for _, i := range cand {
+		if i != must && !r.Chance(0.5) {
+			continue
+		}
+		f := strings.Fields(sections[i][0])
+		f[1] = "0"
+		sections[i][0] = strings.Join(f, " ")
+		sections[i] = append(sections[i], "a=bundle-only")
+		for _, ln := range sections[i] {
+			if strings.HasPrefix(ln, "a=mid:") {
+				out[strings.TrimPrefix(ln, "a=mid:")] = strings.TrimPrefix(f[0], "m=")
+			}
+		}
+	}
+
+	return rigJoinSections(session, sections), out
 }
 
 // ---------------------------------------------------------------- gen mode
@@ -589,7 +703,59 @@ func (h *c06Hist) runGen(p *c06Peer, midStyle int) { //nolint:cyclop
 
 		return
 	}
-	if g.Bundle && r.Chance(0.15) {
+	h.bundleOnly = nil
+	if g.Bundle && len(g.Media) >= 2 && r.Chance(0.35) {
+		// class: zero-port sections that ARE listed in the BUNDLE group. The first listed section keeps its port (offerer
+		// tagged); of the later sections with a mid (any kind: audio / video / application / unknown, accepted so far or
+		// already port 0) a random non-empty subset is offered with port 0 and listed in the group, with a=bundle-only
+		// (RFC 8843, what browsers send under max-bundle) or, rarely, without it (a sloppy foreign offerer).
+		var listed []string
+		var cand []*genMedia
+		for _, m := range g.Media {
+			if m.NoMid {
+				continue
+			}
+			if len(listed) == 0 && len(cand) == 0 {
+				if m.Port != 0 {
+					listed = append(listed, m.Mid)
+				}
+
+				continue
+			}
+			cand = append(cand, m)
+		}
+		if len(listed) == 1 && len(cand) > 0 {
+			must := cand[r.Intn(len(cand))]
+			bo := map[string]string{}
+			for _, m := range cand {
+				switch {
+				case m == must || r.Chance(0.5):
+					hasAttr := false
+					for _, e := range m.Extra {
+						hasAttr = hasAttr || e == "a=bundle-only"
+					}
+					m.Port = 0
+					if !hasAttr && !r.Chance(0.15) {
+						m.Extra = append(m.Extra, "a=bundle-only")
+						hasAttr = true
+					}
+					if !hasAttr {
+						h.run.Count("zero_port_sections_listed_in_group_without_bundle_only_attr", 1)
+					}
+					bo[m.Mid] = m.Kind
+					listed = append(listed, m.Mid)
+					h.run.Count("bundle_only_sections_offered:"+m.Kind, 1)
+				case m.Port != 0:
+					listed = append(listed, m.Mid)
+				}
+			}
+			g.BundleMids = listed
+			h.bundleOnly = bo
+			h.run.Count("gen_offers_with_bundle_only_sections", 1)
+			h.logf("foreign offer has zero-port sections listed in BUNDLE: %v", c06SortedKV(bo))
+		}
+	}
+	if g.Bundle && g.BundleMids == nil && r.Chance(0.15) {
 		// legal: the offerer bundles only some of its accepted sections
 		var acc []string
 		for _, m := range g.Media {
@@ -691,7 +857,8 @@ func c06Kinds(g *genSDP) string {
 func TestVerifC06(t *testing.T) {
 	run := kit.Start(t, "C06", "seeded histories (pure function of seed,index): mode pair = two pion PeerConnections, 2..5 rounds with random offerer, "+
 		"random AddTransceiverFromKind/FromTrack, AddTrack, RemoveTrack, Stop, CreateDataChannel between rounds; mode gen = foreign offer "+
-		"(mid style dense/sparse/non-numeric/mixed by index, unknown kinds, rejected sections, no BUNDLE, media-level credentials, Plan-B shape) "+
+		"(mid style dense/sparse/non-numeric/mixed by index, unknown kinds, rejected sections, bundle-only sections = port 0 + mid listed in BUNDLE, "+
+		"no BUNDLE, media-level credentials, Plan-B shape; in pair mode the pion offer is rewritten to bundle-only form in transit with p=0.3) "+
 		"answered, then local additions + CreateOffer (optionally mirrored answer + second round); SDPSemantics, BundlePolicy, "+
 		"media-level fingerprints and AlwaysNegotiateDataChannels drawn per history. Every CreateOffer/CreateAnswer result of both peers is checked. "+
 		"A history is non-trivial when some checked description has >= 2 m-sections and the history has a remote description with non-dense mids "+
